@@ -31,19 +31,21 @@ OPS = {
     "S=a$b": (0, "set S = 'a$b'", ("S", "a$b")),
     "S=$A": (0, "set S = '$A'", ("S", "$A")),
     "E=1+1": (0, "set E = 1+1", ("E", 2)),
+    "N=-5": (0, "set N = -5", ("N", -5)),
     "unset A": (0, "unset A", ("A", None)),
     "unset a1": (0, "unset a1", ("A1", None)),
     "unset A10": (0, "unset A10", ("A10", None)),
     "unset AB": (0, "unset AB", ("AB", None)),
     "unset S": (0, "unset S", ("S", None)),
     "unset E": (0, "unset E", ("E", None)),
+    "unset N": (0, "unset N", ("N", None)),
     "es Q=5": (0, "ES:set Q = 5; select $Q", ("Q", 5)),
     "c1 A=1000": (1, "set A = 1000", ("A", 1000)),
     "c1 A10=1009": (1, "set A10 = 1009", ("A10", 1009)),
     "c1 unset A": (1, "unset A", ("A", None)),
 }
-QUICK_OPS = ["A=7", "A=bs", "a=70", "A1=8", "A10=9", "AB=$A", "S=a$b", "S=$A", "E=1+1", "unset A", "unset a1", "es Q=5", "c1 A=1000", "c1 unset A"]
-NAMES = ["A", "A1", "A10", "AB", "S", "E", "Q"]
+QUICK_OPS = ["N=-5", "A=7", "A=bs", "a=70", "A1=8", "A10=9", "AB=$A", "S=a$b", "S=$A", "E=1+1", "unset A", "unset a1", "es Q=5", "c1 A=1000", "c1 unset A"]
+NAMES = ["A", "A1", "A10", "AB", "S", "E", "Q", "N"]
 NUMS = [7, 8, 9, 70, 1000, 1009]
 NONREF = [
     ("select 'cost $A' as c", "cost $A"),
@@ -170,6 +172,14 @@ def battery(conns, m, acc, rp, opid):
         obs.append(got)
         if got != ("ok", [(4,)]):
             acc.violation("C15.value", "value=expression,context=product", {"expected": 4, "got": got}, rp)
+    # a numeric variable stands for its value next to any operator (no token pasting: 10-$N with N=-5 is 15, not "10--5")
+    for n in ("N", "A"):
+        if n in d and isinstance(d[n], int):
+            for sql, want in ((f"select 10-${n} as c, 7 as other", [(10 - d[n], 7)]), (f"select -${n} as c", [(-d[n],)]), (f"select ${n}::varchar as c", [(str(d[n]),)])):
+                got = run_one(cur, sql)
+                obs.append(got)
+                if got != ("ok", want):
+                    acc.violation("C15.value", f"value={'negative_int' if d[n] < 0 else 'int'},context=adjacent_operator", {"sql": sql, "expected": want, "got": got, "defined": d}, rp)
     # text that is not a variable reference is returned verbatim, whatever is defined
     for sql, want in NONREF:
         got = run_one(cur, sql)
